@@ -239,6 +239,7 @@ def oracle_layout(ops, io, ctx):
     if soff + elem * cnt > asz: return 'elements end at %d beyond the block of %d bytes' % (soff + elem * cnt, asz)
     if cls in (2, 3, 6, 9) and hoff + hs > soff: return 'header overlaps the slice'
     if cls == 3 and not (hoff + hs <= loff and loff + 8 <= soff): return 'length word overlaps header or slice'
+    if aok == 2: return 'the header the handle shows (at offset %d) is not the one the constructor was given: it was written somewhere else' % hoff
     if not aok: return 'an address handed out is misaligned'
     if aal < 8 or aal < 2 ** tk and cls not in (9, 10) or (cls in (2, 3, 6, 9) and aal < 2 ** hk): return 'block alignment %d too small' % aal
     if st == 0 and (asz, aal) != (dsz, dal):
@@ -1919,6 +1920,8 @@ PROPS['C09']['streams'] = PROPS['C09']['streams'] + [SCHED_STREAM('unwrap')]
 PROPS['C08']['streams'] = PROPS['C08']['streams'] + [DPANIC_STREAM]
 PROPS['C10']['streams'] = PROPS['C10']['streams'] + [DPANIC_STREAM]
 PROPS['C04']['streams'] = PROPS['C04']['streams'] + [DPANIC_STREAM]
+# C15: the header given to an uninit constructor is where the handle shows it, for every header/element shape
+PROPS['C15']['streams'] = PROPS['C15']['streams'] + [LAYOUT_STREAM]
 # C05 also for the blocks the serde impls request and (when the payload's deserialiser refuses) give back
 PROPS['C05']['streams'] = PROPS['C05']['streams'] + [SERDE_STREAM]
 PROPS['C01']['assumptions'] = PROPS['C01']['assumptions'] + ['a panicking payload destructor: Rust drop glue destroys the remaining fields and elements while unwinding and Box frees its memory on the unwind path (Ctor.run_dpanic; validated by the destructor-panic cases)']
